@@ -14,10 +14,13 @@ pub mod c09;
 pub mod c10;
 pub mod c11;
 pub mod c12;
+pub mod c13;
+pub mod c14;
 pub mod c15;
 pub mod c16;
 pub mod c17;
 pub mod c18;
+pub mod c19;
 
 pub struct Prop {
     pub id: &'static str,
@@ -40,10 +43,13 @@ pub fn all() -> Vec<Prop> {
         Prop { id: "C10", level: "exploration", run: c10::run, replay: c10::replay },
         Prop { id: "C11", level: "fault_enumeration", run: c11::run, replay: c11::replay },
         Prop { id: "C12", level: "exploration", run: c12::run, replay: c12::replay },
+        Prop { id: "C13", level: "exploration", run: c13::run, replay: c13::replay },
+        Prop { id: "C14", level: "exploration", run: c14::run, replay: c14::replay },
         Prop { id: "C15", level: "exploration", run: c15::run, replay: c15::replay },
         Prop { id: "C16", level: "exploration", run: c16::run, replay: c16::replay },
         Prop { id: "C17", level: "exploration", run: c17::run, replay: c17::replay },
         Prop { id: "C18", level: "exploration", run: c18::run, replay: c18::replay },
+        Prop { id: "C19", level: "exploration", run: c19::run, replay: c19::replay },
     ]
 }
 
@@ -137,6 +143,8 @@ pub fn child(cmd: &str, _args: &[String]) -> i32 {
     match cmd {
         "child-gen-golden" => c10::gen_golden(),
         "child-digest" => c15::child_digest(_args),
+        "child-mem-build" => c13::child(_args),
+        "child-mem-traverse" => c14::child(_args),
         _ => 2,
     }
 }
